@@ -25,6 +25,10 @@ def _scaled(k, c):  # noqa: ANN001, ANN202
     return k * c
 
 
+def _ratio2(a, b):  # noqa: ANN001, ANN202
+    return a / b
+
+
 def x0_of(spec: dict) -> list[float]:
     """Initial state at the UNPERTURBED parameter values."""
     x0 = [float(v) for v in spec["x0"]]
@@ -43,7 +47,14 @@ def chain_model(spec: dict):  # noqa: ANN201
     if spec.get("ia_x0"):
         m.add_parameter("ia_c", float(spec["ia_x0"]))
     for i in range(n):
-        m.add_parameter(f"k{i + 1}", float(spec["k"][i]))
+        if i == 0 and spec.get("derived_k1"):
+            # k1 is a derived parameter of a derived parameter, declared BEFORE what it depends
+            # on (legal: the model sorts dependencies itself): k1 = vmax / keq, vmax = kcat * e
+            m.add_parameters({"kcat": float(spec["k"][0]), "e": 2.0, "keq": 2.0})
+            m.add_derived("k1", _ratio2, args=["vmax", "keq"])
+            m.add_derived("vmax", _scaled, args=["kcat", "e"])
+        else:
+            m.add_parameter(f"k{i + 1}", float(spec["k"][i]))
         m.add_parameter(f"g{i + 1}", float(spec["g"][i]))
         if i == 0 and spec.get("ia_x0"):
             from mxlpy import InitialAssignment
@@ -165,7 +176,10 @@ class Exec:
                 if kind == "variable_elasticities":
                     tab = mca.variable_elasticities(m, variables=state, normalized=normalized, to_scan=op.get("to_scan"))
                 else:
-                    tab = mca.parameter_elasticities(m, variables=state, normalized=normalized, to_scan=op.get("to_scan"))
+                    ts = op.get("to_scan")
+                    if ts and spec.get("derived_k1"):
+                        ts = ["kcat" if c == "k1" else c for c in ts]
+                    tab = mca.parameter_elasticities(m, variables=state, normalized=normalized, to_scan=ts)
             except Exception as e:  # noqa: BLE001
                 self._viol("routine_raised", ["routine_raised", kind, type(e).__name__], f"{kind} raised {type(e).__name__}: {str(e)[:100]}")
                 return
@@ -187,6 +201,11 @@ class Exec:
                             want = 1.0 if normalized else v[j] / k[j]
                         elif col == "ia_c":
                             want = 0.0  # the state is held fixed: no flux depends on ia_c directly
+                        elif col in ("kcat", "e", "keq"):
+                            # v1 = (kcat * e / keq) * x1**g1
+                            sgn = -1.0 if col == "keq" else 1.0
+                            val = {"kcat": k[1], "e": 2.0, "keq": 2.0}[col]
+                            want = (sgn if normalized else sgn * v[1] / val) if j == 1 else 0.0
                         elif col.startswith("g") and j == int(col[1:]) and j >= 1:
                             # d v_j / d g_j = v_j ln x_j
                             want = g[j - 1] * np.log(xs[j - 1]) if normalized else v[j] * np.log(xs[j - 1])
@@ -256,7 +275,7 @@ class Exec:
                 if kind == "mc_variable_elasticities":
                     res = mc.variable_elasticities(m, mc_to_scan=tab, variables=state, normalized=normalized, max_workers=sched["W"])
                 else:
-                    res = mc.parameter_elasticities(m, mc_to_scan=tab, to_scan=[f"k{j}" for j in range(n + 1)], variables=state, normalized=normalized, max_workers=sched["W"])
+                    res = mc.parameter_elasticities(m, mc_to_scan=tab, to_scan=[("kcat" if (j == 1 and spec.get("derived_k1")) else f"k{j}") for j in range(n + 1)], variables=state, normalized=normalized, max_workers=sched["W"])
             except Exception as e:  # noqa: BLE001
                 self._viol("routine_raised", ["routine_raised", kind, type(e).__name__], f"{kind} raised {type(e).__name__}: {str(e)[:100]}")
                 return
@@ -278,7 +297,8 @@ class Exec:
                             xi = int(col[1:]) - 1
                             want = (g[xi] if normalized else g[xi] * v[j] / xs[xi]) if j == xi + 1 else 0.0
                         else:
-                            want = (1.0 if normalized else v[j] / kk[j]) if col == f"k{j}" else 0.0
+                            own = col == f"k{j}" or (col == "kcat" and j == 1)
+                            want = (1.0 if normalized else v[j] / kk[j]) if own else 0.0
                         if not (abs(got - want) <= 1e-6 * (1 + abs(want))):
                             self._viol("wrong_elasticity", ["wrong_elasticity", kind, "normalized" if normalized else "unscaled"], f"{kind} row {ri} [{'v%d' % j}, {col}] = {got}, analytic {want}")
                             return
@@ -288,6 +308,8 @@ class Exec:
             tables = {}
             variables = {f"x{j + 1}": float(op["variables"][j]) for j in range(n)} if op.get("variables") else None
             to_scan = op.get("to_scan") or [f"k{j}" for j in range(n + 1)]
+            if spec.get("derived_k1"):
+                to_scan = ["kcat" if c == "k1" else c for c in to_scan]
             scheds = op["schedules"]
             for sched in scheds:
                 m = chain_model(spec)
@@ -337,7 +359,7 @@ class Exec:
                         sub_v = cv.xs(ri, level=0) if kind == "mc_response_coefficients" else cv
                         sub_f = cf.xs(ri, level=0) if kind == "mc_response_coefficients" else cf
                         for col in to_scan:
-                            pj = int(col[1:])
+                            pj = 1 if col == "kcat" else int(col[1:])
                             for j in range(n):
                                 want = (1.0 / g[j]) if pj == 0 else (-1.0 / g[j] if pj == j + 1 else 0.0)
                                 if not normalized:
@@ -423,6 +445,8 @@ def gen_case(rng: SimRng, tier: str) -> dict:  # noqa: ARG001
     case = {"spec": spec, "integrator": integ, "ops": ops, "poison": []}
     if r.random() < 0.3:
         spec["ia_x0"] = r.choice([0.5, 2.0, 3.0])
+    if r.random() < 0.3:
+        spec["derived_k1"] = True
     if r.random() < 0.25:
         # the steady state at one perturbed parameter value fails (content-keyed)
         j = r.randrange(n + 1)
